@@ -161,12 +161,27 @@ theorem removeAll_all : ∀ (rs : List Rec) (c c' : Cache), CacheAll P c → Zc.
       exact ih c1 c' (remove_all h h1) hr
 
 /-- `P` does not look at the lifetime -/
+structure LifeOK (P : Rec → Prop) (T : Nat → Prop) : Prop where
+  /-- `P` survives a re-stamping of the lifetime with a TTL satisfying `T` -/
+  set : ∀ r c t, P r → T t → P (r.setLife c t)
+  /-- records satisfying `P` have such TTLs -/
+  ttl : ∀ r, P r → T r.ttl
+  /-- so do the two constant TTLs the record manager writes (cache-flush, PTR floor) -/
+  one : T 1
+  floor : T Gen.dnsPtrMinTtl
+
+/-- `P` does not look at the lifetime at all -/
 def LifeFree (P : Rec → Prop) : Prop := ∀ r c t, P r → P (r.setLife c t)
 
-theorem floorPtr_P (hP : LifeFree P) {r : Rec} (h : P r) : P (floorPtr r) := by
+theorem LifeOK.ofFree {P : Rec → Prop} (h : LifeFree P) : LifeOK P (fun _ => True) :=
+  ⟨fun r c t hr _ => h r c t hr, fun _ _ => trivial, trivial, trivial⟩
+
+variable {T : Nat → Prop}
+
+theorem floorPtr_P (hP : LifeOK P T) {r : Rec} (h : P r) : P (floorPtr r) := by
   unfold floorPtr
   split
-  · exact hP r _ _ h
+  · exact hP.set r _ _ h hP.floor
   · exact h
 
 structure AccAll (P : Rec → Prop) (a : IngestAcc Cache) : Prop where
@@ -174,21 +189,21 @@ structure AccAll (P : Rec → Prop) (a : IngestAcc Cache) : Prop where
   addr : ∀ x ∈ a.addrAdds, P x
   other : ∀ x ∈ a.otherAdds, P x
 
-theorem ingestStep_all (hP : LifeFree P) (now : Ms) {a : IngestAcc Cache} (h : AccAll P a) {r0 : Rec} (hr : P r0) :
+theorem ingestStep_all (hP : LifeOK P T) (now : Ms) {a : IngestAcc Cache} (h : AccAll P a) {r0 : Rec} (hr : P r0) :
     AccAll P (ingestStep lower (Cache.ops lower) now a r0) := by
   have hf := floorPtr_P hP hr
   unfold ingestStep
   dsimp only
   split
   · refine ⟨?_, h.addr, h.other⟩
-    exact cache_mapRecs_all h.cache _ (fun e he => by split; exact hP e _ _ he; exact he)
+    exact cache_mapRecs_all h.cache _ (fun e he => by split; exact hP.set e _ _ he (hP.ttl _ hf); exact he)
   · split
     · exact ⟨h.cache, by intro x hx; simp only [List.mem_append, List.mem_singleton] at hx; rcases hx with hx | rfl; exact h.addr x hx; exact hf, h.other⟩
     · exact ⟨h.cache, h.addr, by intro x hx; simp only [List.mem_append, List.mem_singleton] at hx; rcases hx with hx | rfl; exact h.other x hx; exact hf⟩
   · exact ⟨h.cache, h.addr, h.other⟩
   · exact ⟨h.cache, h.addr, h.other⟩
 
-theorem ingestFold_all (hP : LifeFree P) (now : Ms) : ∀ (rs : List Rec) (a : IngestAcc Cache), AccAll P a → (∀ r ∈ rs, P r) →
+theorem ingestFold_all (hP : LifeOK P T) (now : Ms) : ∀ (rs : List Rec) (a : IngestAcc Cache), AccAll P a → (∀ r ∈ rs, P r) →
     AccAll P (rs.foldl (ingestStep lower (Cache.ops lower) now) a) := by
   intro rs
   induction rs with
@@ -199,13 +214,13 @@ theorem ingestFold_all (hP : LifeFree P) (now : Ms) : ∀ (rs : List Rec) (a : I
     exact ih _ (ingestStep_all hP now h (hr r List.mem_cons_self)) (fun x hx => hr x (List.mem_cons_of_mem _ hx))
 
 /-- **the cache only ever holds records of datagrams, with re-stamped lifetimes** -/
-theorem ingest_all (hP : LifeFree P) {c : Cache} (hc : CacheAll P c) (now : Ms) {recs : List Rec} (hr : ∀ r ∈ recs, P r)
+theorem ingest_all (hP : LifeOK P T) {c : Cache} (hc : CacheAll P c) (now : Ms) {recs : List Rec} (hr : ∀ r ∈ recs, P r)
     {out : IngestOut Cache} (h : Zc.ingest lower (Cache.ops lower) c now recs = .ok out) : CacheAll P out.cache := by
   have hstamp : ∀ r ∈ stamp now recs, P r := by
     intro r hr'
     unfold stamp at hr'
     obtain ⟨r0, hr0, rfl⟩ := List.mem_map.mp hr'
-    exact hP r0 _ _ (hr r0 hr0)
+    exact hP.set r0 _ _ (hr r0 hr0) (hP.ttl r0 (hr r0 hr0))
   have hpre : AccAll P (ingestPre lower (Cache.ops lower) c now recs) := by
     unfold ingestPre
     dsimp only
@@ -214,7 +229,7 @@ theorem ingest_all (hP : LifeFree P) {c : Cache} (hc : CacheAll P c) (now : Ms) 
     dsimp only
     split
     · exact hf.cache
-    · exact cache_mapRecs_all hf.cache _ (fun e he => by split; exact hP e _ _ he; exact he)
+    · exact cache_mapRecs_all hf.cache _ (fun e he => by split; exact hP.set e _ _ he hP.one; exact he)
   unfold Zc.ingest at h
   dsimp only at h
   have h2 := addAll_all (lower := lower) _ _ false hpre.cache hpre.addr
